@@ -76,7 +76,8 @@ def lower():
 
 def jobs(tier):
     L = lower()
-    smax = int(os.environ.get('MV_SMAX', '0')) or (17 if tier == 'quick' else 24)
+    smax_tier = int(os.environ.get('MV_SMAX', '0')) or (17 if tier == 'quick' else 24)
+    SMAX17 = ('s_SetFromString',)   # two Strings + memmove: 24-byte blocks run the SAT solver out of memory (12 GB); stays at 17 in the thorough tier
     lowered = set(L.fname(L.byid[f]) for f in L.order)
     contracts = open(os.path.join(VERIF, 'contracts/string.h')).read()
     J = []
@@ -84,6 +85,7 @@ def jobs(tier):
     # with CBMC's own memmove model the overlapping-move jobs needed > 25 min each; with the byte-loop model 1-6 min
     THOROUGH_ONLY = ('s_append', 's_append_self_inline', 's_remove_char_inline', 's_SetFromString')   # s_append: 10 min; the *_inline jobs are sub-cases of s_append_self / s_remove_char
     for name, var, alias, mangled, decls, args in JOBS:
+        smax = min(smax_tier, 17) if name in SMAX17 else smax_tier
         if name in SLOW and not os.environ.get('MV_SLOW'):
             continue
         if name in THOROUGH_ONLY and tier == 'quick' and not os.environ.get('MV_SLOW'):
